@@ -802,6 +802,26 @@ Definition export_ini (od : odict) (dcf : bool) : option doc :=
   | _, _, _ => None
   end.
 
+(* ------------------------------------------------------------------ export_od: destination and document type
+   dest = Some name: a file name (str); None: an open stream or stdout.  doc_type as given by the caller.
+   Ok (Some dcf): a document of that type is written; Ok None: nothing is written (stream without a type) *)
+Definition ends_with (suffix l : str) : bool := starts_with (rev suffix) (rev l).
+Definition export_od_type (dest : option str) (doc_type : option str) : res (option bool) :=
+  let known t := streq t (s "eds") || streq t (s "dcf") in
+  let explicit := match doc_type with Some [] => None | o => o end in      (* `if doc_type and ...`: '' is falsy *)
+  match explicit with
+  | Some t => if known t then Ok (Some (streq t (s "dcf"))) else Err E_VALUE
+  | None =>
+      match doc_type with
+      | Some _ => Ok None             (* '': not None, so no suffix search; neither "eds" nor "dcf": nothing is written *)
+      | None =>
+          match dest with
+          | Some name => Ok (Some (if ends_with (s ".dcf") name then true else false))
+          | None => Ok None
+          end
+      end
+  end.
+
 (* ------------------------------------------------------------------ observations *)
 Definition vstr (t : str) : val := VS t.
 Definition vpyv (p : pyv) : val :=
@@ -957,6 +977,10 @@ Inductive eds_case :=
     (* export a dictionary built in code, dump the document, re-import with nid, dump *)
 | CReexport (d : doc) (nid : option Z) (dcf : bool) (nid2 : option Z)
     (* import, export, re-import *)
+| CHistory (od1 : odict) (dcf1 : bool) (od2 : odict) (dcf2 : bool) (nid : option Z)
+    (* export od1, change the dictionary to od2, export again, re-import.  export_eds writes nothing into the
+       dictionary, so the state after the first export is od1 itself *)
+| CDest (dest : option str) (doc_type : option str)
 | CInt0 (t : str) | CInt10 (t : str)
 | CConvert (nid : option Z) (dt : Z) (t : str)
 | CRevert (dt : Z) (v : pyv)
@@ -976,6 +1000,12 @@ Definition run_eds_full (c : eds_case) : val :=
   | CExport od dcf nid => export_reimport od dcf nid
   | CReexport d nid dcf nid2 =>
       res_val (fun od => export_reimport od dcf nid2) (import_ini d nid)
+  | CHistory od1 dcf1 od2 dcf2 nid =>
+      match export_ini od1 dcf1 with
+      | None => VErr E_TYPE
+      | Some d1 => VL [od_val od1; doc_val d1; export_reimport od2 dcf2 nid]
+      end
+  | CDest dest t => res_val (vopt VBool) (export_od_type dest t)
   | CInt0 t => vopt VZ (int0 t)
   | CInt10 t => vopt VZ (int10 t)
   | CConvert nid dt t => vopt vpyv (convert_variable nid dt t)
@@ -987,5 +1017,6 @@ Definition run_eds_full (c : eds_case) : val :=
 Definition run_eds (c : eds_case) : val :=
   match c with
   | CImport _ _ _ | CExport _ _ _ | CReexport _ _ _ _ => dg 3 (run_eds_full c)
+  | CHistory _ _ _ _ _ => dg 4 (run_eds_full c)
   | _ => run_eds_full c
   end.
